@@ -79,7 +79,7 @@ func Run(base string, l certenv.Layout, mat *certenv.Material, hist []certenv.St
 		if _, err := sf.Write([]byte{'.'}); err != nil {
 			return nil, err
 		}
-		timer := time.NewTimer(10 * time.Second)
+		timer := time.NewTimer(60 * time.Second)
 	collect:
 		for {
 			select {
@@ -100,7 +100,7 @@ func Run(base string, l certenv.Layout, mat *certenv.Material, hist []certenv.St
 				timer.Stop()
 				return nil, fmt.Errorf("watcher error: %v", e)
 			case <-timer.C:
-				return nil, fmt.Errorf("watchdog: sentinel event not received within 10s after %v", s)
+				return nil, fmt.Errorf("watchdog: sentinel event not received within 60s after %v", s)
 			}
 		}
 		timer.Stop()
